@@ -27,6 +27,7 @@ PMA = SRC + "microgrid/_power_managing/_power_managing_actor.py"
 FE = SRC + "timeseries/formula_engine/_formula_engine.py"
 FS = SRC + "timeseries/formula_engine/_formula_steps.py"
 FEV = SRC + "timeseries/formula_engine/_formula_evaluator.py"
+FGEN = SRC + "timeseries/formula_engine/_formula_generators/_formula_generator.py"
 RS = SRC + "timeseries/_resampling.py"
 RB = SRC + "timeseries/_ringbuffer/buffer.py"
 MW = SRC + "timeseries/_moving_window.py"
@@ -110,7 +111,11 @@ MUTATIONS: list[tuple[str, str, str, str, list[str]]] = [
     ("c13-only-isnan", FEV, "        if isnan(res) or isinf(res):", "        if isnan(res):", ["C13"]),
     ("c13-revert-minmax-fix", FS, "res = math.nan if math.isnan(val1) or math.isnan(val2) else max(val1, val2)", "res = max(val1, val2)", ["C13"]),
     ("c13-revert-div0-fix", FS, "res = val1 / val2 if val2 != 0.0 else math.nan", "res = val1 / val2", ["C13"]),
-    ("c06-sync-le", FEV, "            while metric_ts < latest_ts:", "            while metric_ts <= latest_ts:", ["C06"]),
+    ("c06-sync-le", FEV, "                while name_ts < latest_ts:", "                while name_ts <= latest_ts:", ["C06"]),
+    ("c06-sync-only-last-of-group", FEV, "                if name_ts > latest_ts:", "                if name == names[-1] and name_ts > latest_ts:", ["C05"]),
+    ("c06-3phase-no-sync", FE, "                while not phase_1.timestamp == phase_2.timestamp == phase_3.timestamp:", "                while False:", ["C06"]),
+    ("c05-builder-mutates-operand", FE, "        builder = self._copy()\n        builder._steps.appendleft((TokenType.OPER, \"(\"))\n        builder._steps.append((TokenType.OPER, \")\"))\n        builder._steps.append((TokenType.OPER, oper))", "        builder = self\n        builder._steps.appendleft((TokenType.OPER, \"(\"))\n        builder._steps.append((TokenType.OPER, \")\"))\n        builder._steps.append((TokenType.OPER, oper))", ["C05"]),
+    ("c12-meter-primary-for-subset", FGEN, ") and graph.successors(predecessor.component_id).issubset(\n                        components\n                    ):", ") and True:", ["C12"]),
     ("c06-skip-sync", FEV, "if self._first_run or len({m.result().timestamp for m in ready_metrics}) > 1:  # type: ignore[union-attr]", "if False:", ["C06"]),
     ("c19-no-catchup-loop", FS, "        while primary_fetcher_sample.timestamp > self._latest_fallback_sample.timestamp:", "        while False:", ["C19"]),
     ("c19-older-test-le", FS, "        if primary_fetcher_sample.timestamp < self._latest_fallback_sample.timestamp:\n            return None",
